@@ -59,7 +59,11 @@ func ArrProps(propContainer map[string]object.PanObject) map[string]object.PanOb
 				}
 
 				// NOTE: no need to copy each elem because they are immutable
-				elems := append(self.Elems, other.Elems...)
+				// (but elems must be a new slice otherwise append may overwrite
+				// spare capacity shared with arrs made from self before)
+				elems := make([]object.PanObject, 0, len(self.Elems)+len(other.Elems))
+				elems = append(elems, self.Elems...)
+				elems = append(elems, other.Elems...)
 				return object.NewPanArr(elems...)
 			},
 		),
